@@ -266,7 +266,20 @@ func runAck(w *World) {
 		case isAck && rep.Result == protocol.RESULT_SUCCED && r.Op.Expried > 0:
 			w.probe("ack_locks_succeeded")
 			if _, ok := logged[1][k]; !ok {
-				w.violate("C11", "ack_succeeded_before_leader_log", "ack-lock %s was answered SUCCED but its record has not been written to the leader's log", r)
+				cls, extra := "ack_succeeded_before_leader_log", ""
+				nf := 0
+				for fi := 0; fi < body.NFollowers; fi++ {
+					if _, ok := logged[100+fi*10][k]; ok {
+						nf++
+					}
+				}
+				if w.sc.Knobs.AofAckMode == 1 && nf >= 2 {
+					// majority mode counts the leader's own log write as one vote among the copies: two
+					// followers outvote it (finding F67)
+					cls += "_in_majority_mode"
+					extra = fmt.Sprintf(" (ack mode majority, the record is in the logs of %d followers)", nf)
+				}
+				w.violate("C11", cls, "ack-lock %s was answered SUCCED but its record has not been written to the leader's log%s", r, extra)
 				return
 			}
 			conn := minChans(r.InvEv, rep.Ev)
